@@ -13,6 +13,7 @@ pub mod c10;
 pub mod c11;
 pub mod c12;
 pub mod c13;
+pub mod c14;
 
 pub fn run(prop: &str, cfg: &Cfg, rep: &mut Report) -> bool {
     match prop {
@@ -28,6 +29,7 @@ pub fn run(prop: &str, cfg: &Cfg, rep: &mut Report) -> bool {
         "C11" => c11::run(cfg, rep),
         "C12" => c12::run(cfg, rep),
         "C13" => c13::run(cfg, rep),
+        "C14" => c14::run(cfg, rep),
         _ => return false,
     }
     true
